@@ -93,7 +93,10 @@ func (t *TfdtBox) Type() string {
 
 // Size - return calculated size
 func (t *TfdtBox) Size() uint64 {
-	return uint64(boxHeaderSize + 8 + 4*int(t.Version))
+	if t.Version != 0 { // 64-bit baseMediaDecodeTime, as in decode and encode
+		return uint64(boxHeaderSize + 12)
+	}
+	return uint64(boxHeaderSize + 8)
 }
 
 // Encode - write box to w
